@@ -263,7 +263,41 @@ def _reg(node):
     raise ExtractionError('unknown local in an in-place branch: `{}`'.format(_u(node)))
 
 
-def _opd(node):
+def _attr_opd(node):
+    """`self.scalar` / `self.vector` -> Opd term, else None"""
+    if isinstance(node, ast.Attribute) and _u(node.value) == 'self' and \
+            node.attr in ('scalar', 'vector'):
+        return 'Opd.' + node.attr
+    return None
+
+
+def _let_value(node):
+    """Right-hand side of a local binding `name = E` in an in-place branch, where E is
+    `self.scalar` / `self.vector`, possibly guarded as `E.copy() if <a> is <b> else E`.
+    Registers are VALUES in the model and E is an attribute no statement of the language can
+    modify, so both arms (and every later use of `name`) denote the value of E.  Returns the
+    Opd term of E, or None if the node has another shape."""
+    direct = _attr_opd(node)
+    if direct is not None:
+        return direct
+    if isinstance(node, ast.IfExp) and isinstance(node.test, ast.Compare) and \
+            len(node.test.ops) == 1 and isinstance(node.test.ops[0], (ast.Is, ast.IsNot)) and \
+            all(isinstance(n, (ast.Name, ast.Attribute)) for n in
+                [node.test.left, node.test.comparators[0]]):
+        arms = [node.body, node.orelse]
+        plain = [a for a in arms if _attr_opd(a) is not None]
+        copies = [a for a in arms if isinstance(a, ast.Call) and not a.args and not a.keywords and
+                  isinstance(a.func, ast.Attribute) and a.func.attr == 'copy' and
+                  _attr_opd(a.func.value) is not None]
+        if len(plain) == 1 and len(copies) == 1 and \
+                _attr_opd(copies[0].func.value) == _attr_opd(plain[0]):
+            return _attr_opd(plain[0])
+    return None
+
+
+def _opd(node, lets=None):
+    if isinstance(node, ast.Name) and lets and node.id in lets:
+        return lets[node.id]
     if isinstance(node, ast.Name):
         return '(Opd.reg {})'.format(_reg(node))
     if isinstance(node, ast.Attribute) and _u(node.value) == 'self' and \
@@ -307,8 +341,15 @@ def _b(x):
 def _stmts(body):
     """statement list of an in-place branch -> list of Lean `Stmt` terms"""
     out = []
+    lets = {}        # local name -> Opd term (value bindings of self.scalar / self.vector)
     for i, st in enumerate(body):
         last = i == len(body) - 1
+        # vector = self.vector.copy() if out is self.vector else self.vector   (a `let`)
+        if isinstance(st, ast.Assign) and len(st.targets) == 1 and \
+                isinstance(st.targets[0], ast.Name) and st.targets[0].id not in REGS and \
+                st.targets[0].id not in lets and _let_value(st.value) is not None:
+            lets[st.targets[0].id] = _let_value(st.value)
+            continue
         # tmp = <fresh>
         if isinstance(st, ast.Assign) and len(st.targets) == 1 and _is_fresh(st.value):
             out.append('Stmt.fresh {}'.format(_reg(st.targets[0])))
@@ -347,7 +388,7 @@ def _stmts(body):
         # out += tmp, out *= self.scalar
         if isinstance(st, ast.AugAssign) and isinstance(st.op, (ast.Add, ast.Mult)):
             out.append('Stmt.{} {} {}'.format('iadd' if isinstance(st.op, ast.Add) else 'imul',
-                                              _reg(st.target), _opd(st.value)))
+                                              _reg(st.target), _opd(st.value, lets)))
             continue
         # tmp.lincomb(self.scalar, x) ; x.multiply(self.vector, out=tmp)
         if isinstance(st, ast.Expr) and isinstance(st.value, ast.Call) and \
@@ -355,11 +396,11 @@ def _stmts(body):
             c = st.value
             kws = {k.arg: k.value for k in c.keywords}
             if c.func.attr == 'lincomb' and len(c.args) == 2 and not kws:
-                out.append('Stmt.lincomb {} {} {}'.format(_reg(c.func.value), _opd(c.args[0]),
-                                                          _opd(c.args[1])))
+                out.append('Stmt.lincomb {} {} {}'.format(_reg(c.func.value), _opd(c.args[0], lets),
+                                                          _opd(c.args[1], lets)))
                 continue
             if c.func.attr == 'multiply' and len(c.args) == 1 and set(kws) == {'out'}:
-                out.append('Stmt.multiply {} {} {}'.format(_reg(c.func.value), _opd(c.args[0]),
+                out.append('Stmt.multiply {} {} {}'.format(_reg(c.func.value), _opd(c.args[0], lets),
                                                            _reg(kws['out'])))
                 continue
         raise ExtractionError('unknown statement in an in-place branch: `{}`'.format(_u(st)))
